@@ -450,8 +450,11 @@ func ExpandApk(ctx context.Context, source io.Reader, cacheDir string) (*APKExpa
 		}
 	}
 
-	if err := gzi.Close(); err != nil {
-		return nil, fmt.Errorf("expandApk error 6: %w", err)
+	// gzi is nil when the source ended before the first gzip header (e.g. an empty file).
+	if gzi != nil {
+		if err := gzi.Close(); err != nil {
+			return nil, fmt.Errorf("expandApk error 6: %w", err)
+		}
 	}
 	if err := sw.CloseFile(); err != nil {
 		return nil, fmt.Errorf("expandApk error 7: %w", err)
